@@ -21,6 +21,12 @@ pub struct Parser<'a> {
     /// Set by parse_class_member when the member it parsed was declared `abstract`
     /// (such members are declarations only and are dropped from the class body).
     last_member_abstract: bool,
+    /// Stack address when parsing started: nesting is refused before the recursive
+    /// descent can exhaust the native stack.
+    stack_base: usize,
+    /// Offsets of `(` already found not to start an arrow function (so nested
+    /// speculative parses are not repeated at every enclosing level).
+    no_arrow_at: FxHashSet<usize>,
 }
 
 impl<'a> Parser<'a> {
@@ -33,6 +39,8 @@ impl<'a> Parser<'a> {
             previous: Token::eof(0, 1, 1),
             no_in: false,
             last_member_abstract: false,
+            stack_base: 0,
+            no_arrow_at: FxHashSet::default(),
         }
     }
 
@@ -43,7 +51,41 @@ impl<'a> Parser<'a> {
     }
 
     /// Parse a complete program
+    /// Native stack the recursive descent may use (threads commonly have 2 MB)
+    const STACK_BUDGET: usize = 768 * 1024;
+
+    /// Longest operator / member / call chain built by a loop (`a + b + c + ...`,
+    /// `a.b.c...`): such chains make a left-deep tree without any recursion in the parser,
+    /// but every later traversal of the tree (compilation, its release) recurses over it.
+    const MAX_CHAIN: usize = 10_000;
+
+    fn chain_too_long(&self) -> JsError {
+        JsError::syntax_error(
+            "Expression chain is too long",
+            self.current.span.line,
+            self.current.span.column,
+        )
+    }
+
+    /// Refuse further nesting when the recursive descent has used its stack budget.
+    #[inline(never)]
+    fn check_depth(&mut self) -> Result<(), JsError> {
+        let marker = 0u8;
+        let here = &marker as *const u8 as usize;
+        if self.stack_base == 0 {
+            self.stack_base = here;
+        } else if self.stack_base.abs_diff(here) > Self::STACK_BUDGET {
+            return Err(JsError::syntax_error(
+                "Source is nested too deeply",
+                self.current.span.line,
+                self.current.span.column,
+            ));
+        }
+        Ok(())
+    }
+
     pub fn parse_program(&mut self) -> Result<Program, JsError> {
+        self.check_depth()?;
         let mut body = Vec::new();
 
         while !self.is_at_end() {
@@ -87,6 +129,7 @@ impl<'a> Parser<'a> {
     // ============ STATEMENTS ============
 
     fn parse_statement(&mut self) -> Result<Statement, JsError> {
+        self.check_depth()?;
         // Check for decorators first - they can precede class declarations
         if self.check(&TokenKind::At) {
             let decorators = self.parse_decorators()?;
@@ -306,6 +349,7 @@ impl<'a> Parser<'a> {
     }
 
     fn parse_binding_pattern(&mut self) -> Result<Pattern, JsError> {
+        self.check_depth()?;
         match &self.current.kind {
             TokenKind::Identifier(_) => {
                 let id = self.parse_identifier()?;
@@ -2268,6 +2312,7 @@ impl<'a> Parser<'a> {
     }
 
     fn parse_assignment_expression(&mut self) -> Result<Expression, JsError> {
+        self.check_depth()?;
         // Check for yield expression
         if self.check(&TokenKind::Yield) {
             return self.parse_yield_expression();
@@ -2362,12 +2407,18 @@ impl<'a> Parser<'a> {
 
     /// Pratt parser for binary expressions
     fn parse_binary_expression(&mut self, min_prec: u8) -> Result<Expression, JsError> {
+        self.check_depth()?;
         let start = self.current.span;
         let mut left = self.parse_unary_expression()?;
+        let mut chain = 0usize;
 
         while let Some((op, prec, is_logical)) = self.current_binary_op() {
             if prec < min_prec {
                 break;
+            }
+            chain += 1;
+            if chain > Self::MAX_CHAIN {
+                return Err(self.chain_too_long());
             }
 
             // Save the operator token kind before advancing (needed for logical op detection)
@@ -2408,6 +2459,7 @@ impl<'a> Parser<'a> {
     }
 
     fn parse_unary_expression(&mut self) -> Result<Expression, JsError> {
+        self.check_depth()?;
         let start = self.current.span;
 
         if let Some(op) = self.current_unary_op() {
@@ -2580,8 +2632,13 @@ impl<'a> Parser<'a> {
         // Track if we've seen any optional chaining (?.) in this expression
         let mut in_optional_chain = false;
         let optional_chain_start = start;
+        let mut chain = 0usize;
 
         loop {
+            chain += 1;
+            if chain > Self::MAX_CHAIN {
+                return Err(self.chain_too_long());
+            }
             // Check for call with either ( or < (type arguments)
             if self.check(&TokenKind::LParen) || self.check(&TokenKind::Lt) {
                 // Try to parse as call with type arguments
@@ -2744,9 +2801,14 @@ impl<'a> Parser<'a> {
         }
 
         // TypeScript type assertions: `e as T`, `e satisfies T`, chained (`e as any as T`)
+        let mut as_chain = 0usize;
         while self.check(&TokenKind::As)
             || (self.check_keyword("satisfies") && !self.lexer.had_newline_before())
         {
+            as_chain += 1;
+            if as_chain > Self::MAX_CHAIN {
+                return Err(self.chain_too_long());
+            }
             self.advance();
             // Handle "as const" - const assertion (TypeScript 3.4+)
             // This is a compile-time feature; at runtime we just return the value unchanged
@@ -2770,9 +2832,14 @@ impl<'a> Parser<'a> {
     fn parse_member_expression(&mut self) -> Result<Expression, JsError> {
         let start = self.current.span;
         let mut expr = self.parse_primary_expression()?;
+        let mut chain = 0usize;
 
         // Handle member access chain (.prop, [expr])
         loop {
+            chain += 1;
+            if chain > Self::MAX_CHAIN {
+                return Err(self.chain_too_long());
+            }
             if self.match_token(&TokenKind::Dot) {
                 if self.match_token(&TokenKind::Hash) {
                     let name = self.parse_private_identifier()?;
@@ -2821,6 +2888,7 @@ impl<'a> Parser<'a> {
     }
 
     fn parse_primary_expression(&mut self) -> Result<Expression, JsError> {
+        self.check_depth()?;
         let start = self.current.span;
 
         match &self.current.kind {
@@ -3186,8 +3254,12 @@ impl<'a> Parser<'a> {
             return self.parse_arrow_function_from_params(vec![], start);
         }
 
-        // Try to parse as arrow function params (with type annotations)
-        if let Ok(params) = self.try_parse_arrow_params() {
+        // Try to parse as arrow function params (with type annotations) - unless an
+        // enclosing attempt already found that this `(` does not start an arrow function
+        let known_not_arrow = self.no_arrow_at.contains(&start.start);
+        if known_not_arrow {
+            // fall through to the parenthesized expression below
+        } else if let Ok(params) = self.try_parse_arrow_params() {
             // Arrow immediately after ) -> definitely arrow function
             if self.check(&TokenKind::Arrow) {
                 return self.parse_arrow_function_from_params(params, start);
@@ -3237,18 +3309,22 @@ impl<'a> Parser<'a> {
             }
 
             // No arrow - might be parenthesized expression, rollback and re-parse
+            self.no_arrow_at.insert(start.start);
             self.lexer.restore(lexer_checkpoint);
             self.current = saved_current;
             self.previous = saved_previous;
         } else {
             // Failed to parse as params, rollback
+            self.no_arrow_at.insert(start.start);
             self.lexer.restore(lexer_checkpoint);
             self.current = saved_current;
             self.previous = saved_previous;
         }
 
         // Parse as parenthesized expression
-        self.require_token(&TokenKind::LParen)?;
+        if !known_not_arrow {
+            self.require_token(&TokenKind::LParen)?;
+        }
 
         // Inside (...) parentheses, 'in' is allowed as binary operator even in for-loop context
         let saved_no_in = self.no_in;
@@ -3769,6 +3845,7 @@ impl<'a> Parser<'a> {
     // ============ TYPE ANNOTATIONS ============
 
     fn parse_type_annotation(&mut self) -> Result<TypeAnnotation, JsError> {
+        self.check_depth()?;
         self.parse_conditional_type()
     }
 
@@ -3839,9 +3916,15 @@ impl<'a> Parser<'a> {
     /// A primary type followed by any number of `[]` (array) and `[K]` (indexed access)
     /// suffixes: `(A | B)[]`, `(T)[number]`, `{ a: 1 }["a"]`, `string[][]`.
     fn parse_primary_type(&mut self) -> Result<TypeAnnotation, JsError> {
+        self.check_depth()?;
         let start = self.current.span;
         let mut ty = self.parse_primary_type_base()?;
+        let mut chain = 0usize;
         while self.check(&TokenKind::LBracket) {
+            chain += 1;
+            if chain > Self::MAX_CHAIN {
+                return Err(self.chain_too_long());
+            }
             self.advance();
             if self.match_token(&TokenKind::RBracket) {
                 ty = TypeAnnotation::Array(ArrayType {
@@ -3912,30 +3995,10 @@ impl<'a> Parser<'a> {
             TokenKind::Keyof => {
                 self.advance();
                 let operand = self.parse_primary_type()?;
-                let mut ty = TypeAnnotation::Keyof(KeyofType {
+                let ty = TypeAnnotation::Keyof(KeyofType {
                     type_annotation: Box::new(operand),
                     span: self.span_from(start),
                 });
-                // Array shorthand: keyof T[]
-                while self.check(&TokenKind::LBracket) {
-                    self.advance();
-                    if self.check(&TokenKind::RBracket) {
-                        self.advance();
-                        ty = TypeAnnotation::Array(ArrayType {
-                            element_type: Box::new(ty),
-                            span: self.span_from(start),
-                        });
-                    } else {
-                        // Indexed access: keyof T[K]
-                        let index_type = self.parse_type_annotation()?;
-                        self.require_token(&TokenKind::RBracket)?;
-                        ty = TypeAnnotation::Indexed(IndexedAccessType {
-                            object_type: Box::new(ty),
-                            index_type: Box::new(index_type),
-                            span: self.span_from(start),
-                        });
-                    }
-                }
                 Ok(ty)
             }
 
@@ -4035,29 +4098,7 @@ impl<'a> Parser<'a> {
                     Ok(ty)
                 } else {
                     let ty = self.parse_type_reference()?;
-                    let mut ty = TypeAnnotation::Reference(ty);
-
-                    // Array shorthand or indexed access type
-                    while self.check(&TokenKind::LBracket) {
-                        self.advance();
-                        if self.check(&TokenKind::RBracket) {
-                            // Array type: T[]
-                            self.advance();
-                            ty = TypeAnnotation::Array(ArrayType {
-                                element_type: Box::new(ty),
-                                span: self.span_from(start),
-                            });
-                        } else {
-                            // Indexed access type: T["key"] or T[K]
-                            let index_type = self.parse_type_annotation()?;
-                            self.require_token(&TokenKind::RBracket)?;
-                            ty = TypeAnnotation::Indexed(IndexedAccessType {
-                                object_type: Box::new(ty),
-                                index_type: Box::new(index_type),
-                                span: self.span_from(start),
-                            });
-                        }
-                    }
+                    let ty = TypeAnnotation::Reference(ty);
 
                     Ok(ty)
                 }
